@@ -215,6 +215,16 @@ def check_filter(chk) -> None:
     callers = [(g, cl) for g in repo.all_funcs() for cl in astq.calls(g.node, "filter_clashing_atoms")]
     over = [(g, cl) for g, cl in callers if len(cl.args) > 1 or cl.keywords]
     chk.expect(not over and len(callers) >= 2, "clash-distance", fi.where, f"{len(callers)} callers use the default distance", "a caller overrides the clash distance", K(fi, "clash-override"))
+    # duplicates and clashes: decided on the atoms the filter returns for representative atom lists; the path rules below are the fallback
+    from checks import c08e
+
+    try:
+        if c08e.check_filter_eval(chk):
+            return
+    except AnalysisError:
+        raise
+    except Exception as ex:
+        chk.ok("filter-eval", fi.where, f"evaluation of filter_clashing_atoms failed internally ({type(ex).__name__}: {str(ex)[:60]}): the path rules decide")
     # identity key contains the model
     keys = [s for s in ast.walk(fi.node) if isinstance(s, ast.Assign) and norm(s.targets[0]) == "key" and isinstance(s.value, ast.Tuple)]
     ok = len(keys) == 1 and {norm(e) for e in keys[0].value.elts} >= {"atom.model", "atom.label", "atom.auth", "atom.name"}
